@@ -1108,3 +1108,11 @@ M("C09-benign-number-skip-isxdigit", "C09", "src/cppparser/cppPreprocessor.cxx",
 MUTANTS.append({"id": "C15-current-enum-reset-to-null", "prop": "C15", "benign": False,
   "expect": "R15.13|current_enum|reset-to-null",
   "edits": [("src/cppparser/cppBison.yxx", "  current_enum = last_enums.back();\n  last_enums.pop_back();\n", "  current_enum = nullptr;\n")]})
+
+M("C07-hex-separator-decimal-only", "C07", "src/cppparser/cppPreprocessor.cxx",
+  "      c = skip_digit_separator(peek(), true);", "      c = skip_digit_separator(peek());",
+  expect="R07.10|get_number|hex-digits|hex-class")
+M("C07-fraction-without-separators", "C07", "src/cppparser/cppPreprocessor.cxx",
+  "    while (c != EOF && isdigit(c)) {\n      num += get();\n      c = skip_digit_separator(peek());\n    }\n  }\n\n  if (decimal_point || c == 'e' || c == 'E') {",
+  "    while (c != EOF && isdigit(c)) {\n      num += get();\n      c = peek();\n    }\n  }\n\n  if (decimal_point || c == 'e' || c == 'E') {",
+  expect="R07.10|get_number|")
